@@ -334,7 +334,7 @@ check_norm(Ctx& ctx, const Nut& nut, const Layout& L, const shared_ptr<const Exa
             }
         }
       if (zeros)
-        ctx.count("zero_efficiency_bins_documented_gaps", zeros);
+        ctx.count("zero_efficiency_bins_outside_symmetric_fan", zeros);
       // ---- get_bin_efficiency where implemented
       {
         bool implemented = true;
@@ -405,6 +405,7 @@ check_norm(Ctx& ctx, const Nut& nut, const Layout& L, const shared_ptr<const Exa
       if (norm.is_trivial())
         {
           ctx.count("trivial_identity_checks");
+          ctx.count("trivial_identity_checks_" + c);
           const long d = first_bit_diff(a, x);
           if (d >= 0)
             {
